@@ -173,6 +173,19 @@ fn parse_value(t: &mut Toks, pool: &mut Vec<V>) -> V {
             }
             Value::Pair(Box::new(items.into_iter().collect::<GenericPair<V>>()))
         }
+        "D" => {
+            // improper list: n items and a tail
+            let n: usize = t.int();
+            let mut items = Vec::new();
+            for _ in 0..n {
+                items.push(parse_value(t, pool));
+            }
+            let mut tail = parse_value(t, pool);
+            for item in items.into_iter().rev() {
+                tail = Value::Pair(Box::new(GenericPair::Some(item, tail)));
+            }
+            tail
+        }
         "T" => Value::Transformer(ruschm::parser::Transformer::Native(|d| Ok(d))),
         "P" => {
             // builtin procedure by name
@@ -679,6 +692,12 @@ fn run_line(line: &str) -> String {
         }
         "libs" => libs_cmd(&mut t),
         "flibs" => flibs_cmd(&mut t),
+        "roundtrip" => {
+            // the text display produces for a value, and what reading that text back (quoted) gives
+            let v = parse_value(&mut t, &mut pool);
+            let text = format!("{}", v);
+            format!("OK RT {} ;; {}", hex(&text), evalforms(&format!("'{}", text), true))
+        }
         "replref" => replref_cmd(&mut t),
         "scope" => scope_cmd(&mut t),
         "c18sweep" => c18sweep(t.int()),
